@@ -202,6 +202,21 @@ def run_tree(args):
                                 if a[0] != "link" or os.path.realpath(os.path.join(dest, drel)) != os.path.realpath(os.path.join(real_src, srel)):
                                     bad({"class": "not_a_symlink_to_source", "cmd": cmd}, "%s -> %s %r" % (srel, drel, a), **q)
                                     break
+                    if cmd == "cp" and expected and n % 5 == 1 and not os.path.islink(dest) and not bad_any(part):
+                        # the destination is shipped and emptied, and the same command is run again in this process
+                        import shutil
+
+                        shutil.rmtree(dest)
+                        os.makedirs(dest)
+                        try:
+                            drf_command.main(argv)
+                            again = set(tree_digest(dest))
+                            if again != set(expected):
+                                bad({"class": "second_run_into_emptied_destination", "cmd": cmd},
+                                    "drf %s run again after the destination was emptied: lacks %s" % (" ".join(argv[:1] + argv[3:]), sorted(set(expected) - again)[:3]), **q)
+                        except Exception as e:  # noqa: BLE001
+                            bad({"class": "second_run_into_emptied_destination", "cmd": cmd, "exc": type(e).__name__},
+                                "drf %s run again after the destination was emptied raised %r" % (" ".join(argv[:1] + argv[3:]), e), **q)
                     if cmd in ("ln", "lnsym") and expected and n % 4 == 0 and not bad_any(part):
                         # the source is regenerated (new content, new inode) and the same command is run again:
                         # it must either refuse or leave links to the current source files - never claim success
@@ -264,28 +279,50 @@ def run_real(args):
         dest = os.path.join(root, "dest")
         os.makedirs(dest)
         n, d = 10, 3
-        cfg = rf.Cfg(n=n, d=d, fc=1000, sc=2, start=md.first_of_ts(1394333998, n, d), cont=(mode == "cont"))
+        fc = 1000
+        if window == "frac":
+            # 100 ms files; the window is given as plain decimal timestamps falling on file names
+            n, d, fc = 100, 1, 100
+        cfg = rf.Cfg(n=n, d=d, fc=fc, sc=2, start=md.first_of_ts(1394333998, n, d), cont=(mode == "cont"))
         chdir = os.path.join(src, "ch0")
         os.makedirs(os.path.join(chdir, "metadata"))
         w = rf.open_writer(drf, chdir, cfg)
-        w.rf_write(rf.make_values(cfg, seed, cfg["start"], 14))
-        w.rf_write(rf.make_values(cfg, seed, cfg["start"] + 20, 9), 20)
+        if window == "frac":
+            w.rf_write(rf.make_values(cfg, seed, cfg["start"], 140))
+            w.rf_write(rf.make_values(cfg, seed, cfg["start"] + 200, 90), 200)
+        else:
+            w.rf_write(rf.make_values(cfg, seed, cfg["start"], 14))
+            w.rf_write(rf.make_values(cfg, seed, cfg["start"] + 20, 9), 20)
         w.close()
         mw = drf.DigitalMetadataWriter(os.path.join(chdir, "metadata"), 10, 2, n, d, "metadata")
         for k in (cfg["start"] + 1, cfg["start"] + 12, cfg["start"] + 25):
             mw.write(k, {"v": int(k % 1000)})
         argv = [cmd if cmd != "lnsym" else "ln"] + (["--symbolic"] if cmd == "lnsym" else []) + [src, dest]
         s_ms = e_ms = None
-        if window:
+        if window == "frac":
+            s_ms = 1394333998 * 1000 + 300
+            e_ms = 1394333999 * 1000 + 100
+            argv += ["-s", "%d.%d" % (s_ms // 1000, s_ms % 1000 // 100), "-e", "%d.%d" % (e_ms // 1000, e_ms % 1000 // 100)]
+        elif window:
             s_ms = (1394333998 + 2) * 1000
             e_ms = (1394333998 + 7) * 1000
             argv += ["-s", iso(s_ms), "-e", iso(e_ms)]
+        listed = None
+        if window:
+            listed = sorted(os.path.relpath(p_, src) for p_ in drf.lsdrf(src, starttime=T.from_ms(s_ms), endtime=T.from_ms(e_ms)))
         rs = drf.DigitalRFReader(src)
         b = rs.get_bounds("ch0")
         src_blocks = {k: v.tobytes() for k, v in rs.read(b[0], b[1], "ch0").items()}
         src_md = {int(k): v for k, v in rs.read_metadata(b[0], b[1], "ch0", method=None).items() if "v" in v}
         rs.close()
         drf_command.main(argv)
+        if listed is not None:
+            have = sorted(os.path.relpath(os.path.join(r_, f_), dest) for r_, d_, fs_ in os.walk(dest) for f_ in fs_)
+            part["evaluations"] += 1
+            if have != listed:
+                part["violations"].append(core.Violation({"class": "real_transferred_set", "cmd": cmd}, case,
+                                                         "drf %s: destination lacks %s, has in excess %s of what lsdrf selects for the same window" % (
+                                                             " ".join(argv[:1] + argv[3:]), sorted(set(listed) - set(have))[:3], sorted(set(have) - set(listed))[:3])))
         rd = drf.DigitalRFReader(dest)
         bd = rd.get_bounds("ch0")
         part["evaluations"] += 1
@@ -354,7 +391,7 @@ def main(tier):
     jobs = jobs[rot:] + jobs[:rot]
     for part in core.pmap(run_tree, jobs, chunksize=1):
         chk.merge(part)
-    real = [(m, c, w) for m in ("gapped", "cont") for c in ("cp", "mv", "ln", "lnsym") for w in (False, True)]
+    real = [(m, c, w) for m in ("gapped", "cont") for c in ("cp", "mv", "ln", "lnsym") for w in (False, True, "frac")]
     for part in core.pmap(run_real, real, chunksize=1):
         chk.merge(part)
     return chk.finish()
